@@ -51,7 +51,7 @@ func init() {
 		Level: "exploration",
 		Rule: "(A) seeded charts of literal YAML documents (all 38 InstallOrder kinds + unknown kinds; no/other/hook annotations with single, multiple, non-canonical and unknown events, weights, delete policies; blank and comment-only documents; separator variants '---', '--- ', doubled, leading, trailing; CRLF files; partials, NOTES.txt, nested NOTES.txt, non-.yaml template files) rendered by a client-only dry-run install; " +
 			"(B) real install+uninstall of charts with 2-5 resources in each of 3-6 kinds (known and unknown) against the simulated API server with a 0-3 ms pseudo-random delay in front of every create/delete, under the race detector. " +
-			"distinct_nontrivial counts distinct chart shapes: (A) (#files bucket, #documents bucket, CRLF, separator variants used, document classes present, >12 generic documents, partial/NOTES present); (B) (#kinds, #resources, #unknown kinds).",
+			"distinct_nontrivial counts distinct chart shapes: (A) (#files bucket, #documents bucket, CRLF, number of separator variants used, document classes present, >12 generic documents, partial/NOTES present); (B) (#kinds, #resources, #unknown kinds).",
 		Assumptions: []string{
 			"server-side [recv,done] of a request lies inside the client-side call interval, so done(a) < recv(b) on the simulator's sequence counter is implied by a client-side barrier",
 			"the simulated API server (sim) applies creates/deletes like a real API server; the delay is slept before the request is logged as received",
